@@ -308,6 +308,17 @@ func c19Worker(ctx *rt.Ctx, job *rt.Job) []*rt.Violation {
 		return vs
 	case "flags":
 		// the global flags must not change what is created: -v with no, 3 and 1001 records
+		// fields and lines of 2^16 bytes and more, with and without -v
+		for _, flen := range []int{65535, 65536, 70000} {
+			for _, fl := range [][]string{nil, {"-v"}} {
+				c := c19Case{Header: []string{"id", "K"}, Flags: fl, Shape: fmt.Sprintf("one field of %d bytes", flen)}
+				c.Records = [][]string{{"0", strings.Repeat("x", flen)}, {"1", "y"}}
+				n = job.Shard
+				if !run(c) {
+					return vs
+				}
+			}
+		}
 		for _, nrec := range []int{0, 3, 1001} {
 			c := c19Case{Header: []string{"id", "K"}, Flags: []string{"-v"}}
 			for i := 0; i < nrec; i++ {
